@@ -1,38 +1,3 @@
-"""Scratch property for engine experiments (not registered in MANIFEST)."""
-from ..e1 import Harness
+"""Alias so `./check C00` runs the engine self-test harnesses."""
+from .selftest import *  # noqa
 PROP_ID = "C00"
-FEATURE = "c00"
-SRC = r'''
-use crate::terms::*;
-use crate::vk;
-use erltf::OwnedTerm;
-#[inline(never)]
-fn marker(x: u8) { let mut i = 0u8; while i < x { i += 1; } assert!(i != 77, "L:marker"); }
-fn probe(a: &OwnedTerm) {
-    match a {
-        OwnedTerm::Reference(_) => marker(1),
-        OwnedTerm::Integer(_) => marker(2),
-        OwnedTerm::Tuple(_) => marker(3),
-        OwnedTerm::Map(_) => marker(4),
-        _ => marker(5),
-    }
-}
-
-
-/// re-write the first 8 bytes (the niche word that encodes the variant) with the value they already hold
-fn pin(t: &mut OwnedTerm, word: u64) {
-    let p = t as *mut OwnedTerm as *mut u64;
-    unsafe { vk::assume(*p == word); *p = word; }
-}
-fn word_of(t: &OwnedTerm) -> u64 { unsafe { *(t as *const OwnedTerm as *const u64) } }
-#[cfg_attr(kani, kani::proof)]
-pub fn scratch_ref_pin() { let (mut a, _r) = mk_ref::<1>(); pin(&mut a, 1); probe(&a); vk::leak(a); vk::reached(); }
-#[cfg_attr(kani, kani::proof)]
-pub fn scratch_tuple_pin() {
-    let tag = word_of(&OwnedTerm::Integer(0));
-    let (mut a, _r) = mk_tuple(vec![mk_int()]);
-    if let OwnedTerm::Tuple(v) = &mut a { pin(&mut v[0], tag); probe(&v[0]); }
-    vk::leak(a); vk::reached(); }
-'''
-def generate(tier, seed):
-    return SRC, [Harness(n, n, unwind=4) for n in ["scratch_ref_pin", "scratch_tuple_pin"]]
